@@ -49,6 +49,15 @@ RULE = ("expr: exhaustive cross 35 dunders x operand kinds x length pairs x call
         "(other raw, other in a Stream, self, both) x builder branch (binary|rbinary x iterable|scalar, unary) x which operand "
         "is empty / shortest / endless x one dunder of every operator class (thorough: three), primary flavours x all 35 dunders; "
         "random trees of depth <= 4 (quick) / 6 (thorough) whose leaves are drawn from the same flavours, a malformed stream; "
+        "exprE (c01_exc.py): element values on which the operators RAISE in the middle (division / modulo by zero incl. Fraction(0), 0.0, False; "
+        "0 ** negative; negative / float shift counts; None, str, complex elements; Boom elements on which every one of the 35 dunders, abs, call "
+        "and attribute access raise; a Boom scalar = every position raises) x every dunder of the pool x (scalar operand on the side the dunder "
+        "fixes | iterable operand raw / in a Stream | endless self | endless other | unary | map / abs / attribute / call) and random nested "
+        "trees of depth <= 4 (thorough 5) with append / Stream(a, b); each read three ways: next() in try/except, a for loop restarted after "
+        "each exception, a random script of next() / take(k) in try/except; bcastE: the math/dB/MIDI functions on scalar / list / tuple / deque / "
+        "generator / map / filter / Stream / thub inputs, by position and by keyword, with elements in the middle on which the function raises "
+        "(domain errors, None, str, negative factorial), invalid logarithm bases by position / keyword; meta: classes built with a user's "
+        "subclass of AbstractOperatorOverloaderMeta (subsets of the three builders x __operators__ / __without__ queries x names bound in the body); "
         "a case is non-trivial when the real expression delivers at least one item or the broadcast function "
         "is applied to at least one element; distinct = distinct JSON case")
 TRUSTED = [
@@ -61,6 +70,16 @@ TRUSTED = [
     "harness/props/c01_flavours.py: which python object delivers the elements of a leaf (itertools / builtin iterators, lazy_itertools "
     "wrappers); an endless operand is shown to the model as its first n + 2 elements for an observation of n next() calls "
     "(every next() of an operator expression asks each leaf at most once)",
+    "harness/props/c01_exc.py: the oracle table `bad` handed to the Lean model (entries exprE / bcastE) = the applications, among those the "
+    "model itself asks about (`queried`), on which python's operator.* / the undecorated library function raises on the real elements; "
+    "settled by rounds and re-checked for consistency in every comparison; the three readers (next loop, restarted for loop, next/take script)",
+    "harness/props/c01_exc.py stream_meth_kinds: ast recogniser that tells from lazy_stream.py whether Stream.__getattr__ / __call__ build "
+    "their result on a generator expression or on a map object (parameter `g` of the model's `meth` node; unknown shape = broken obligation)",
+    "independent oracle (c01_exc.scalar_function_checks, 538 calls) for the element functions lazy_math defines itself (log / ln / log10 / "
+    "log2 / log1p / factorial / dB10 / dB20 / sign incl. their error branches): python numbers are not modelled in Lean",
+    "CPython facts the exception model encodes (checked differentially on every run): a map object survives an exception of its function, "
+    "map(f, a, b) does not advance b when a raises, a generator is finished by any exception leaving its frame, itertools.chain passes "
+    "exceptions on, islice(it, k) makes exactly k calls",
 ]
 MANIFEST = {
     "text": "Lean 4 theorems (structural induction over expression trees of any depth, operands finite / empty / unequal / "
@@ -68,14 +87,20 @@ MANIFEST = {
             "the metaclass loop over the REGENERATED operator table, and the elementwise decorator; tied to /repo by "
             "translator T1 (table + insertion logic read from the source on every run, re-proved by `decide`) and a "
             "differential run in which the symbolic terms of the model/spec are evaluated with python's operator.* on the "
-            "real elements",
+            "real elements; element operations that raise are inside the model (Iter.stepE / drainE / takeE over an arbitrary oracle `bad`, "
+            "compositional outcome laws exc_map / exc_gen / exc_map2 / exc_chain / exc_take / exc_eval for all expression trees; "
+            "elementwiseE for the broadcast decorator) and inside the tie (exceptions in the middle, then continued reads); classes built by "
+            "any user of the metaclass (missing builders, operator queries) are modelled by installW",
     "note": "Trusted: Lean kernel (axioms propext, Classical.choice, Quot.sound as reported in the evidence), translator T1, the term "
-            "evaluator and generators of harness/props/c01.py, CPython's operator dispatch and itertools.  Element "
-            "semantics is deliberately not modelled (free term algebra): the property is about wiring.",
+            "evaluator and generators of harness/props/c01.py + c01_exc.py (oracle table = python's own verdict on the applications the model "
+            "asks about), CPython's operator dispatch and itertools.  Element "
+            "semantics is deliberately not modelled (free term algebra + an abstract `raises` oracle): the property is about wiring.  Known finding: "
+            "Stream.__getattr__/__call__ end at the first element exception (generator expressions).",
     "technique": "Lean 4 proof over an executable model + source-to-Lean table translator + symbolic differential correspondence",
 }
 ASSUMPTIONS = [
-    "element semantics (Python numbers) is not modelled: the theorems are over a free term algebra, i.e. about wiring",
+    "element semantics (Python numbers) is not modelled: the theorems are over a free term algebra, i.e. about wiring; WHICH applications raise "
+    "is an arbitrary parameter `bad : Term -> Bool` of the exception theorems (they hold for every such oracle)",
     "operands are Streams, non-Stream iterables or non-iterable scalars; classes registered with avoid_stream give NotImplemented",
     "Stream.__init__ is modelled for 1 and 2 arguments (n > 2 is the same fold)",
 ]
